@@ -308,6 +308,33 @@ func runCrashCase(c *crashCase) (impl, pred string) {
 		if r == "ok" {
 			fails = append(fails, "callback-ok-after-crash")
 		}
+		// the host's own broker Dial / Accept on fresh ids after the crash: bounded (the pending window is ~5 s), never ok
+		if bd, ok := kit.(interface {
+			DialOnce() error
+			AcceptOnce() error
+		}); ok {
+			r, el = timed(15*time.Second, bd.DialOnce)
+			note("bdial", r, el, 9*time.Second)
+			if c.proto == "grpcmux" {
+				// multiplexed: Dial hands out a lazily connecting gRPC connection without needing the plugin;
+				// only its return in bounded time is demanded here
+				if r == "ok" || r == "err" {
+					res["bdial"] = "any"
+				}
+			} else if r == "ok" {
+				fails = append(fails, "broker-dial-ok-after-crash")
+			}
+			r, el = timed(15*time.Second, bd.AcceptOnce)
+			res["baccept"] = r
+			if r == "hang" || r == "panic" {
+				fails = append(fails, "baccept-"+r)
+			} else if el > 9*time.Second {
+				fails = append(fails, "baccept-slow")
+			}
+			if r != "hang" && r != "panic" {
+				res["baccept"] = "any" // a listener may still be handed out locally (non-mux gRPC listens before it announces)
+			}
+		}
 	}
 	if cp != nil {
 		r, el = timed(12*time.Second, func() error { return cp.Ping() })
@@ -335,7 +362,7 @@ func runCrashCase(c *crashCase) (impl, pred string) {
 	r, el = timed(10*time.Second, func() error { client.Kill(); return nil })
 	note("kill", r, el, 5*time.Second)
 
-	keys := []string{"start", "client", "dispense", "call", "callback", "emit", "exited", "ctx", "double", "callback2", "ping", "kill"}
+	keys := []string{"start", "client", "dispense", "call", "callback", "emit", "exited", "ctx", "double", "callback2", "bdial", "baccept", "ping", "kill"}
 	var parts []string
 	for _, k := range keys {
 		if v, ok := res[k]; ok {
